@@ -169,6 +169,9 @@ def run(ctx):
                 ev = json.loads(open(f).read().split("\n")[matched[0]])
             except Exception:
                 pass
+            if ev and ev.get("e") == "ReadBlocked":
+                ctx.violation("%s:readers-not-shared" % label, "a second reader (%s) could not enter within 3 s while only a reader held the lock: readers must be able to hold the lock together" % label, [f])
+                continue
             if ev and ev.get("e") == "TryBlocked":
                 ctx.violation("%s:trylock-blocked" % label, "trylock (%s) did not return within 3 s while another thread held the lock all the time: trylock must never block" % label, [f])
                 continue
